@@ -221,8 +221,11 @@ impl TokenType {
         match self {
             If | Else | While | Array | Of | Proc | Ref | Type | Var | Colon | Divide | Lt | Gt
             | Int(_) | Ident(_) | Hex(_) => 1,
+            // a lone `'` at the end of the text turns into a char literal
+            // as soon as another character follows
+            Unknown(_) => 1,
             LParen | RParen | LBracket | RBracket | LCurly | RCurly | Eq | Neq | Le | Ge
-            | Assign | Comma | Semic | Plus | Minus | Times | Comment(_) | Unknown(_) | Eof => 0,
+            | Assign | Comma | Semic | Plus | Minus | Times | Comment(_) | Eof => 0,
             Char(_) => {
                 1 // this is a worst case look ahead.
             }
